@@ -111,20 +111,21 @@ theorem rekey_preserves (L : C.Laws) (st st' : Store C I) (h h' : Handle C) (m :
     SealedUnder C h'.storeKey st' ∧
     h'.profile = h.profile ∧ h'.pk = h.pk ∧
     (∃ ref, m.resolve C pass rnd = .ok (h'.storeKey, ref) ∧ KeyRef.parse st'.keyRef = .ok ref ∧ ref.method = m) :=
-  rekey_ok L st st' h h' m pass rnd hr
+  rekey_ok rekeyRefusesBlankRaw L st st' h h' m pass rnd hr
 
 /-- A rejected re-key changes nothing. -/
 theorem rekey_failed_no_change (st : Store C I) (h : Handle C) (m : Method) (pass : PassKey) (rnd : Rnd C) (e : Err)
     (hr : (rekey C st h m pass rnd).2 = .error e) : (rekey C st h m pass rnd).1 = st :=
-  rekey_err_unchanged st h m pass rnd e hr
+  rekey_err_unchanged rekeyRefusesBlankRaw st h m pass rnd e hr
 
-/-- The new (method, pass key) opens the re-keyed store (for a usable pass key: not a blank raw one). -/
+/-- The new (method, pass key) opens the re-keyed store (for a usable pass key: not a blank raw one —
+    with the guard of 9124dcd in the source that case cannot succeed anyway, see below). -/
 theorem rekey_new_key_opens (L : C.Laws) (st st' : Store C I) (h h' : Handle C) (m : Method) (pass : PassKey)
     (rnd : Rnd C) (hsalt : rnd.salt.length = 16) (hraw : m = .raw → pass.str ≠ [])
     (hr : rekey C st h m pass rnd = (st', .ok h'))
     (p : Option Str) (hex : (lookup (p.getD st'.defaultProfile) st'.profiles).isSome) :
     ∃ hh, openDb C st' (some m) pass p = .ok hh ∧ hh.storeKey = h'.storeKey :=
-  rekey_then_open L st st' h h' m pass rnd hsalt hraw hr p hex
+  rekey_then_open rekeyRefusesBlankRaw L st st' h h' m pass rnd hsalt hraw hr p hex
 
 /-- **The previous key is dead**, for all ordered pairs of methods: after a re-key, every
     successful open holds the NEW store key and, if it names a method, names the NEW method.
@@ -135,13 +136,13 @@ theorem rekey_old_key_dead (L : C.Laws) (st st' : Store C I) (h h' : Handle C) (
     (m0 : Option Method) (pass0 : PassKey) (p : Option Str) (hh : Handle C)
     (ho : openDb C st' m0 pass0 p = .ok hh) :
     hh.storeKey = h'.storeKey ∧ ∀ m', m0 = some m' → m' = m :=
-  rekey_then_open_only_new L st st' h h' m pass rnd hr m0 pass0 p hh ho
+  rekey_then_open_only_new rekeyRefusesBlankRaw L st st' h h' m pass rnd hr m0 pass0 p hh ho
 
 /-- The twelve ordered pairs of *different* methods, spelled out: naming the old method fails with `Input`. -/
 theorem rekey_old_method_refused (L : C.Laws) (st st' : Store C I) (h h' : Handle C) (m mOld : Method) (pass : PassKey)
     (rnd : Rnd C) (hr : rekey C st h m pass rnd = (st', .ok h')) (hne : mOld ≠ m)
     (pass0 : PassKey) (p : Option Str) : openDb C st' (some mOld) pass0 p = .error .input :=
-  rekey_other_method_refused L st st' h h' m mOld pass rnd hr hne pass0 p
+  rekey_other_method_refused rekeyRefusesBlankRaw L st st' h h' m mOld pass rnd hr hne pass0 p
 
 /-- The default-profile setting is what a later `open` without a profile name activates, and a
     re-key keeps it (`rekey_preserves`); `open` itself never changes it (`wrong_open_no_change`). -/
@@ -149,30 +150,59 @@ theorem default_profile_persists (st : Store C I) (name : Str) (m : Option Metho
     (ho : openDb C (setDefaultProfile st name) m pass none = .ok h) : h.profile = name :=
   open_default_profile (setDefaultProfile st name) m pass h ho
 
-/-- The statement "a blank raw key is refused" at full strength: also for `rekey`. -/
+/-- The statement "a blank raw key is refused" at full strength — also by `rekey`, and nothing is
+    written — for the variant of `rekey` with (`g = true`) or without (`g = false`) the check
+    `method == RawKey && pass_key.is_empty()` in front of `resolve`. -/
+def BlankRawRefusedBy (g : Bool) : Prop :=
+  ∀ (C : Crypto) (I : Type) (st : Store C I) (h : Handle C) (pass : PassKey) (rnd : Rnd C),
+    pass.str = [] → rekeyG g C st h .raw pass rnd = (st, .error .input)
+
+/-- … and for the CURRENT tree (`Keys.rekey` follows `Generated.Flags.rekeyRefusesBlankRaw`). -/
 def BlankRawRefusedEverywhere : Prop :=
   ∀ (C : Crypto) (I : Type) (st : Store C I) (h : Handle C) (pass : PassKey) (rnd : Rnd C),
-    pass.str = [] → (rekey C st h .raw pass rnd).2 = .error .input
+    pass.str = [] → rekey C st h .raw pass rnd = (st, .error .input)
 
-/-- It is FALSE on the current tree: `SqliteBackend::rekey` calls `StoreKeyMethod::resolve` directly
-    (not `init_keys`), which answers a blank raw pass key with `StoreKey::random()`.  The store is
-    then sealed under a key no pass key denotes (candidate defect found by this check). -/
-theorem blank_raw_refused_everywhere_false : ¬ BlankRawRefusedEverywhere := by
+/-- With the guard the full statement holds. -/
+theorem blank_raw_refused_everywhere_of_guard : BlankRawRefusedBy true :=
+  fun _ _ st h pass rnd hb => rekey_blank_raw_refused st h pass rnd hb
+
+/-- Hence it holds on the current tree whenever the source has the guard. -/
+theorem blank_raw_refused_everywhere_current (hg : rekeyRefusesBlankRaw = true) : BlankRawRefusedEverywhere := by
+  intro C I st h pass rnd hb
+  unfold rekey; rw [hg]
+  exact rekey_blank_raw_refused st h pass rnd hb
+
+/-- Without the guard it is FALSE (defect D25, found by this check, fixed in 9124dcd):
+    `StoreKeyMethod::resolve` answers a blank raw pass key with `StoreKey::random()` and the re-key
+    goes through.  Witness: an unprotected one-profile store. -/
+theorem blank_raw_accepted_without_guard : ¬ BlankRawRefusedBy false := by
   intro h
   have := h Crypto.toy Unit
     { keyRef := sNone, defaultProfile := [0x70], profiles := [([0x70], (none, 1))], items := () }
     { storeKey := none, profile := [0x70], pk := 1 } none Crypto.toyRnd rfl
-  have e : (rekey Crypto.toy (I := Unit)
+  have e : (rekeyG false Crypto.toy (I := Unit)
       { keyRef := sNone, defaultProfile := [0x70], profiles := [([0x70], (none, 1))], items := () }
       { storeKey := none, profile := [0x70], pk := 1 } .raw none Crypto.toyRnd).2
       = .ok { storeKey := some (99 : Nat), profile := [0x70], pk := (1 : Nat) } := rfl
-  rw [e] at this; cases this
+  rw [this] at e; cases e
 
-/-- What does hold: under a blank raw pass key `rekey` seals the store under the *random* key. -/
+/-- What does hold without the guard: the store ends up sealed under the *random* key, which no
+    pass key denotes. -/
 theorem blank_raw_rekey_partial (st : Store C I) (h : Handle C) (pass : PassKey) (rnd : Rnd C) (hb : pass.str = [])
     (ps' : List (Str × C.Blob)) (hw : rewrap C h.storeKey (some rnd.key) rnd.nonce 0 st.profiles = .ok ps') :
-    rekey C st h .raw pass rnd = ({ st with profiles := ps', keyRef := sRaw }, .ok { h with storeKey := some rnd.key }) :=
+    rekeyG false C st h .raw pass rnd = ({ st with profiles := ps', keyRef := sRaw }, .ok { h with storeKey := some rnd.key }) :=
   rekey_blank_raw_accepted st h pass rnd hb ps' hw
+
+/-- Either way the verdict on the current tree is decided by the flag read from the source. -/
+theorem blank_raw_status :
+    (rekeyRefusesBlankRaw = true ∧ BlankRawRefusedEverywhere) ∨ (rekeyRefusesBlankRaw = false ∧ ¬ BlankRawRefusedEverywhere) := by
+  cases hg : rekeyRefusesBlankRaw with
+  | true => exact Or.inl ⟨rfl, blank_raw_refused_everywhere_current hg⟩
+  | false =>
+    refine Or.inr ⟨rfl, fun h => blank_raw_accepted_without_guard ?_⟩
+    intro C I st hh pass rnd hb
+    have := h C I st hh pass rnd hb
+    unfold rekey at this; rw [hg] at this; exact this
 
 /-! Non-vacuity: the laws have an instance; a concrete provision / rekey / open run succeeds. -/
 example : Crypto.toy.Laws := Crypto.toy_laws
@@ -183,32 +213,48 @@ example : ∃ fs h, provision Crypto.toy () .absent (.kdf .interactive) (some [0
 
 /-! ## Model B — store URIs -/
 
-/-- **The round-trip property at full strength**: for every well-formed `Options` (explicit decidable
-    predicate `Options.WF`, Model/Uri.lean) and EVERY order `qs` in which the hash map may enumerate
-    its entries, parsing what `into_uri` writes gives the same `Options` (query compared as a map). -/
+/-- **The round-trip property at full strength**, for an `into_uri` that writes `sep` between two
+    `key=value` pairs: for every well-formed `Options` (explicit decidable predicate `Options.WF`,
+    Model/Uri.lean) and EVERY order `qs` in which the hash map may enumerate its entries, parsing
+    what is written gives the same `Options` (query compared as a map). -/
+def UriRoundtripFor (sep : Str) : Prop :=
+  ∀ (o : Options), o.WF = true → ∀ qs : List (Str × Str), qs.Perm o.query →
+    (parseUri (intoUriSep sep qs o)).Equiv o
+
+/-- … and for the `into_uri` of the CURRENT tree (`Uri.queryPairSeparator` follows
+    `Generated.Flags.uriQueryAmpersand`, read from options.rs on every run). -/
 def UriRoundtrip : Prop :=
   ∀ (o : Options), o.WF = true → ∀ qs : List (Str × Str), qs.Perm o.query →
     (parseUri (intoUriWith qs o)).Equiv o
 
-/-- Whatever the tree does, the statement is decided by what `into_uri` writes between two pairs:
-    with `&` it holds, with nothing (the pinned tree, defect D1) it fails.  This theorem is valid
-    before and after the fix; `Uri.queryPairSeparator` is the single switch. -/
-theorem uri_roundtrip_by_separator :
-    (queryPairSeparator = [0x26] → UriRoundtrip) ∧ (queryPairSeparator = [] → ¬ UriRoundtrip) := by
-  constructor
-  · intro hs o hwf qs hp
-    unfold intoUriWith; rw [hs]
-    exact roundtrip_equiv_amp o hwf qs hp
-  · intro hs h
+/-- The statement is decided by the separator: with `&` it holds, with nothing it fails. -/
+theorem uri_roundtrip_by_separator : UriRoundtripFor [0x26] ∧ ¬ UriRoundtripFor [] :=
+  ⟨fun o hwf qs hp => roundtrip_equiv_amp o hwf qs hp,
+   fun h => d1Witness_not_equiv (h d1Witness d1Witness_wf d1Witness.query (List.Perm.refl _))⟩
+
+/-- Without a separator (defect D1, the tree before 3030f32) the full statement is FALSE: witness
+    host `h`, query {a ↦ 1, b ↦ 2}, written `h?a=1b=2`, read back as {a ↦ "1b=2"}. -/
+theorem uri_roundtrip_false_without_separator : ¬ UriRoundtripFor [] := uri_roundtrip_by_separator.2
+
+/-- On the current tree the round trip holds whenever the source writes the `&`. -/
+theorem uri_roundtrip_current (hf : Askar.Generated.Flags.uriQueryAmpersand = true) : UriRoundtrip := by
+  intro o hwf qs hp
+  have hs : queryPairSeparator = [0x26] := by unfold queryPairSeparator; rw [hf]; rfl
+  unfold intoUriWith; rw [hs]
+  exact roundtrip_equiv_amp o hwf qs hp
+
+/-- Either way the verdict on the current tree is decided by the flag read from the source. -/
+theorem uri_roundtrip_status :
+    (Askar.Generated.Flags.uriQueryAmpersand = true ∧ UriRoundtrip) ∨
+    (Askar.Generated.Flags.uriQueryAmpersand = false ∧ ¬ UriRoundtrip) := by
+  cases hf : Askar.Generated.Flags.uriQueryAmpersand with
+  | true => exact Or.inl ⟨rfl, uri_roundtrip_current hf⟩
+  | false =>
+    refine Or.inr ⟨rfl, fun h => ?_⟩
+    have hs : queryPairSeparator = [] := by unfold queryPairSeparator; rw [hf]; rfl
     have := h d1Witness d1Witness_wf d1Witness.query (List.Perm.refl _)
     unfold intoUriWith at this; rw [hs] at this
     exact d1Witness_not_equiv this
-
-/-- On the pinned tree the full statement is FALSE (D1): witness host `h`, query {a ↦ 1, b ↦ 2},
-    written `h?a=1b=2`, read back as {a ↦ "1b=2"}.
-    AFTER THE FIX (queryPairSeparator := [0x26]) replace this theorem by
-      theorem uri_roundtrip : UriRoundtrip := uri_roundtrip_by_separator.1 rfl -/
-theorem uri_roundtrip_false : ¬ UriRoundtrip := uri_roundtrip_by_separator.2 rfl
 
 /-- The part that holds on every tree: at most one query parameter. -/
 theorem uri_roundtrip_partial (o : Options) (hwf : o.WF = true) (qs : List (Str × Str)) (hp : qs.Perm o.query)
